@@ -18,7 +18,7 @@ def run(ctx):
                          '(relay: ok/temp/perm/other/mapping/sequence; backoff: None/0/5/10; announcements of stored or foreign ids), '
                          'advance the virtual clock, flush}; each run is then drained; every run is replayed event by event on the Coq model '
                          'and the states compared at every quiescent point; non-trivial = at least two delivery attempts happened')
-    for backend in ('dict', 'disk', 'cloud', 'redis'):
+    for backend in ('dict', 'shelve', 'disk', 'cloud', 'redis'):
         qharness.scripted_restart(ctx, ('c12',), backend)
     qharness.explore(ctx, ('c12',), 600 if ctx.quick else 6000, 40, CFGS)
     qharness.bounded_pool_scenario(ctx)
